@@ -538,6 +538,17 @@ type Pair[K comparable, V any] interface{ Put(k K, v V) (V, bool) }
 				b.expect[out] = append(b.expect[out], "Mock"+n)
 			}
 		}},
+		// an interface listed by name is configured whatever the regexes say (they select among
+		// the unlisted ones)
+		{Class: "valid", Variant: "listed-interfaces-match-exclude-regex@root", Apply: func(b *c09Base, _ string, _ *simrt.Plan) {
+			b.proj.Config.Set("include-interface-regex", ".*").Set("exclude-interface-regex", ".*")
+		}},
+		{Class: "valid", Variant: "listed-interfaces-match-exclude-regex@package", Apply: func(b *c09Base, _ string, _ *simrt.Plan) {
+			b.level("package").Set("include-interface-regex", "^NoSuchName$").Set("exclude-interface-regex", "[A-Za-z]")
+		}},
+		{Class: "valid", Variant: "exclude-regex-without-include-regex", Apply: func(b *c09Base, _ string, _ *simrt.Plan) {
+			b.proj.Config.Set("exclude-interface-regex", ".*")
+		}},
 		{Class: "valid", Variant: "gomod-module-tab", Apply: func(b *c09Base, _ string, _ *simrt.Plan) {
 			b.proj.GoModText = "module\t" + c09Mod + "\n" + world.GoModTail
 		}},
